@@ -229,12 +229,27 @@ fn config_sweep(sh: &util::Shard) -> Report {
                 for t in &p.tla {
                     args.push((*t).into());
                 }
+                // every other configuration finds its targets already there, with longer, stale
+                // content (an output file is replaced, not overwritten in place)
+                const STALE: &str = "STALE-CONTENT-OF-AN-EARLIER-RUN\n";
+                let stale = STALE.repeat(60);
+                let prepopulated = idx % 2 == 0;
+                if prepopulated {
+                    if f.out_file {
+                        std::fs::write(format!("{dir}/out.txt"), &stale).unwrap();
+                    }
+                    if f.multi {
+                        for (path, _) in &expect(p, &f, &dir).multi_files {
+                            std::fs::write(path, &stale).unwrap();
+                        }
+                    }
+                }
                 let o = cli::run(&args, stdin.as_deref(), Stdout::Capture, &[], None);
                 rep.evaluations += 1;
                 rep.states += 1;
                 rep.traces_validated += 1;
                 rep.transitions += 1;
-                let what = format!("{} [{}] {:?}", p.name, input_form, &args[if input_form == "exec" { 2 } else { 1 }..]);
+                let what = format!("{} [{}{}] {:?}", p.name, input_form, if prepopulated { ", targets pre-existing" } else { "" }, &args[if input_form == "exec" { 2 } else { 1 }..]);
                 let case = json!({"type":"cli","program":p.src,"input":input_form,"args":args});
                 if !base_contract(&o, &mut rep, &what, &case) {
                     continue;
@@ -249,7 +264,8 @@ fn config_sweep(sh: &util::Shard) -> Report {
                 let out_path = format!("{dir}/out.txt");
                 let out_file = std::fs::read(&out_path).ok();
                 if e.code != 0 {
-                    if out_file.as_ref().is_some_and(|c| !c.is_empty()) {
+                    // nothing is written to the -o file: absent / empty, or still the stale content
+                    if out_file.as_ref().is_some_and(|c| !c.is_empty() && !(prepopulated && c.as_slice() == stale.as_bytes())) {
                         rep.violation("C12/failure-with-output-in-file", format!("{what}: the -o file contains {:?}", util::truncate(&String::from_utf8_lossy(out_file.as_ref().unwrap()), 100)), case.clone());
                     }
                     continue;
